@@ -23,3 +23,4 @@ open SSVerif.Hist
 #print axioms SSVerif.Search.C01_search_checkers_sound
 #print axioms SSVerif.Search.C01_build_lexTreeOK
 #print axioms SSVerif.Search.C01_reachable_WFHist_built
+#print axioms SSVerif.Search.C01_build_chains_end
